@@ -173,7 +173,7 @@ class Gen:
         self.add({"op": "http_bg", "name": name, "method": "GET", "target": "/head/%s?follow=true&context=%s" % (t, ca)})
         for _ in range(self.r.randint(1, 3)):
             c = self.r.choice([None, ca, ca])
-            tt = self.r.choice([t, t, "other"])
+            tt = self.r.choice([t, t, "other", t + "x", t + ".y", t[:-1] or "z"])   # prefix-related topics must not leak in
             i = self.add({"op": "http", "method": "POST", "target": "/" + tt + ("?context=" + c if c else ""), "body": b"", "meta": None})
             self.frames.append(i)
         self.add({"op": "http_collect", "name": name})
